@@ -39,9 +39,9 @@ Step(e) == hist' = Append(hist, e)
 Move(i, v) == /\ heap' = [heap EXCEPT ![i] = Translate(@, v)]
               /\ disp' = [disp EXCEPT ![i] = Add(@, v)]
               /\ UNCHANGED <<orig, args, ncopy>>
-              /\ Step([act |-> "Move", id |-> i, v |-> v])
+              /\ Step([act |-> "Move", id |-> i, v |-> v, post |-> Translate(heap[i], v)])
 Copy(i)    == /\ ncopy' = [ncopy EXCEPT ![i] = @ + 1] /\ UNCHANGED <<heap, orig, disp, args>>
-              /\ Step([act |-> "Copy", id |-> i])
+              /\ Step([act |-> "Copy", id |-> i, val |-> heap[i]])
 Obs(i)     == UNCHANGED <<heap, orig, disp, args, ncopy>> /\ Step([act |-> "Obs", id |-> i])
 
 \* ---- pure queries and their exact answers
@@ -67,9 +67,12 @@ Answer(op, a, b) ==
     [] op = "eq"           -> [k |-> "Bool", b |-> SameSet(a, b)]
     [] op = "measure"      -> [k |-> "Measures", m |-> Measures(a)]
     [] op \in {"hash", "repr"} -> [k |-> "Any"]
-Query(op, i, j) == /\ QuerySupported(op, heap[i], heap[j])
+UnaryOps == {"measure", "hash", "repr"}
+Query(op, i, j) == /\ QuerySupported(op, heap[i], heap[j]) /\ (op \in UnaryOps => i = j)
                    /\ UNCHANGED <<heap, orig, disp, args, ncopy>>
-                   /\ Step([act |-> "Query", op |-> op, i |-> i, j |-> j, exp |-> Answer(op, heap[i], heap[j])])
+                   \* the exact answer is computed from the recorded operand values when the history is emitted
+                   \* (WithAnswers): simulation evaluates every enabled successor, so actions must stay cheap
+                   /\ Step([act |-> "Query", op |-> op, i |-> i, j |-> j, a |-> heap[i], b |-> heap[j]])
 \* the shared argument k is moved in place: nothing that was built from it changes (ownership)
 Mutate(k, v) == /\ args' = [args EXCEPT ![k] = Add(@, v)] /\ UNCHANGED <<heap, orig, disp, ncopy>>
                 /\ Step([act |-> "Mutate", k |-> k, v |-> v])
@@ -80,7 +83,20 @@ Next == /\ Len(hist) < MaxDepth
            \/ "Obs" \in Alphabet /\ \E i \in Ids : (IF hist = <<>> THEN TRUE ELSE hist[Len(hist)].act # "Obs") /\ Obs(i)
            \/ "Query" \in Alphabet /\ \E op \in QueryOps, i \in Ids, j \in Ids : Query(op, i, j)
            \/ "Mutate" \in Alphabet /\ \E k \in DOMAIN args, v \in MoveVecs : Mutate(k, v)
+WithAnswers(h) == [n \in 1..Len(h) |-> IF h[n].act = "Query"
+                                          THEN [act |-> "Query", op |-> h[n].op, i |-> h[n].i, j |-> h[n].j, exp |-> Answer(h[n].op, h[n].a, h[n].b)]
+                                          ELSE h[n]]
 Spec == Init /\ [][Next]_vars
+\* Random walks for `tlc -simulate`: TLC evaluates every enabled successor before choosing one, so the operands are
+\* drawn with RandomElement first and only the handful of actions on them is offered (not a BFS relation).
+NextSim == /\ Len(hist) < MaxDepth
+           /\ LET i == RandomElement(Ids)  j == RandomElement(Ids)  v == RandomElement(MoveVecs)
+              IN \/ "Move" \in Alphabet /\ Move(i, v)
+                 \/ "Copy" \in Alphabet /\ ncopy[i] < 1 /\ Copy(i)
+                 \/ "Obs" \in Alphabet /\ Obs(i)
+                 \/ "Query" \in Alphabet /\ \E op \in QueryOps : Query(op, i, j)
+                 \/ "Mutate" \in Alphabet /\ DOMAIN args # {} /\ Mutate(RandomElement(DOMAIN args), v)
+SpecSim == Init /\ [][NextSim]_vars
 View == <<heap, disp, args, ncopy>>          \* hides the history in the model-checking configurations
 
 ---------------------------------------------------------------------------
